@@ -64,6 +64,7 @@ Vec ==
       off == CASE v.place = "q" -> 12 [] v.place = "owner" -> 19 [] v.place = "chain" -> 12 [] v.place = "long" -> 12 [] OTHER -> 23
       nv == NameVerdict(b, off)
   IN [place |-> v.place, bytes |-> b, off |-> off, verdict |-> nv.v, why |-> nv.why, hops |-> nv.hops,
-      name |-> IF nv.v = "ok" THEN Present(nv.name) ELSE <<>>]
+      name |-> IF nv.v = "ok" THEN Present(nv.name) ELSE <<>>,
+      allocmax |-> AllocBound(Len(b))]      \* memory of one decode call on this input, in octets
 Out == Emit(Vec)
 =============================================================================
